@@ -90,7 +90,8 @@ def _gmm_native(self, env, inp):
     bad = None
     for vname, (loc, sc) in variants.items():
         for seed in (0, 1):
-            X, y = SD.draw_gmm(n, loc, sc, self.pvals, np.random.RandomState(seed))
+            # an integer seed and a generator instance started from it denote the same stream
+            X, y = SD.draw_gmm(n, loc, sc, self.pvals, seed if vname == "float arrays" else np.random.RandomState(seed))
             rs = np.random.RandomState(seed)
             locf, scf = np.asarray(loc, dtype=float), np.asarray(sc, dtype=float)
             yr = rs.choice(K, p=self.pvals, size=(n,))
@@ -295,6 +296,15 @@ def flow_obligations():
                         bad.append(e[2] + " receives " + fx.show(e[3][-1])[:60])
         obs.append(Ob(f"{name}: every draw comes from check_random_state(random_state); no global random state", PROVED if draws and not bad and not glob else REFUTED,
                       "fx-dataflow", "P", {"draws": draws, "bad": sorted(set(bad)), "global": glob}, fn=fn))
+        # ONE generator per call: the raw random_state argument is turned into a generator exactly once and given to nothing else
+        # (a helper that re-seeds from the same integer makes the label stream and the sample stream identical, i.e. dependent)
+        RS = ("var", "random_state")
+        n_roots = [sum(1 for e in st.events if e[0] == "call" and e[2] == "check_random_state") for st in sts if st.ended != "raise"]
+        leaks = sorted({e[2] for st in sts for e in st.events if e[0] == "call" and e[2] != "check_random_state"
+                        and (RS in e[3] or RS in [v for _, v in e[4]])})
+        obs.append(Ob(f"{name}: one generator per call (check_random_state(random_state) once; the raw argument goes nowhere else)",
+                      PROVED if n_roots and all(c == 1 for c in n_roots) and not leaks else REFUTED, "fx-dataflow", "P",
+                      {"check_random_state calls per path": n_roots, "raw random_state passed to": leaks}, fn=fn))
     return obs
 
 
